@@ -164,7 +164,12 @@ type server struct {
 	world   *simapi.World
 }
 
-func buildServer(doc *loads.Document, n int, point func(), plans []reqPlan, salt uint64) *server {
+// coldOps are the operations whose route entries carry no dependency-internal ordering (single produces/consumes
+// entry, single-scheme alternatives): for them the two builds agree without normalisation, so the concurrent
+// handler can be left completely cold (no route has ever been looked up) when the requests arrive.
+var coldOps = []int{3, 4}
+
+func buildServer(doc *loads.Document, n int, point func(), plans []reqPlan, salt uint64, normalise bool) *server {
 	world := simapi.NewWorld(n)
 	u := simapi.NewUntyped(doc)
 	u.RegisterConsumer("application/json", &simapi.Consumer{W: world, Tag: "json", Inner: runtime.JSONConsumer(), OnCall: point})
@@ -203,7 +208,9 @@ func buildServer(doc *loads.Document, n int, point func(), plans []reqPlan, salt
 	for _, o := range ops {
 		probes = append(probes, httptest.NewRequest(o.method, "/api"+strings.NewReplacer("{id}", "x", "{sub}", "y").Replace(o.tmpl), nil))
 	}
-	simapi.NormaliseRoutes(ctx, probes, kernel.OrderFunc(salt))
+	if normalise {
+		simapi.NormaliseRoutes(ctx, probes, kernel.OrderFunc(salt))
+	}
 	return &server{ctx: ctx, handler: h, world: world}
 }
 
@@ -545,6 +552,7 @@ func (prop) Run(t *testing.T, tape *kernel.Tape, sc kernel.Scenario) *kernel.Res
 	defer kernel.UninstallOrder()
 
 	n := 2 + tape.Choose(5, "nreq")
+	cold := tape.Bool(5, "cold-start")
 	flowB := tape.Bool(2, "accessor-flow")
 	plans := make([]reqPlan, n)
 	sameRoute := tape.Choose(len(ops), "popular-op")
@@ -554,6 +562,9 @@ func (prop) Run(t *testing.T, tape *kernel.Tape, sc kernel.Scenario) *kernel.Res
 		p.op = tape.Choose(len(ops), "op")
 		if tape.Bool(2, "same-route") {
 			p.op = sameRoute
+		}
+		if cold {
+			p.op = coldOps[tape.Choose(len(coldOps), "cold-op")]
 		}
 		p.tok = fmt.Sprintf("t%dx%d", i, tape.Choose(1000, "tok"))
 		p.id = "id-" + p.tok
@@ -577,7 +588,7 @@ func (prop) Run(t *testing.T, tape *kernel.Tape, sc kernel.Scenario) *kernel.Res
 		serve = serveProgram
 	}
 	// ---- solo pass on its own identically built server
-	soloSrv := buildServer(cachedDoc, n, nil, plans, salt)
+	soloSrv := buildServer(cachedDoc, n, nil, plans, salt, true)
 	solo := make([]record, n)
 	est := 0
 	for i := range plans {
@@ -587,7 +598,10 @@ func (prop) Run(t *testing.T, tape *kernel.Tape, sc kernel.Scenario) *kernel.Res
 	raceLog.Drain()
 	// ---- concurrent pass
 	k := kernel.NewK2(tape)
-	concSrv := buildServer(cachedDoc, n, k.Point, plans, salt)
+	concSrv := buildServer(cachedDoc, n, k.Point, plans, salt, !cold)
+	if cold {
+		env.Fault("cold-start")
+	}
 	conc := make([]record, n)
 	for i := range plans {
 		i := i
@@ -596,7 +610,7 @@ func (prop) Run(t *testing.T, tape *kernel.Tape, sc kernel.Scenario) *kernel.Res
 	k.Run(est, 4)
 	env.Log("k2", "%s", k.TraceString())
 	var sb strings.Builder
-	fmt.Fprintf(&sb, "%d requests flowB=%v salt=%d:", n, flowB, salt)
+	fmt.Fprintf(&sb, "%d requests flowB=%v cold=%v salt=%d:", n, flowB, cold, salt)
 	for _, p := range plans {
 		fmt.Fprintf(&sb, " [%s %s k1=%s k2=%s ct=%s acc=%s prog=%v]", ops[p.op].id, p.tok, p.key1, p.key2, p.ctype, p.accept, progString(p.program))
 	}
